@@ -293,6 +293,34 @@ def r2(run: Run, src, cg):
     ok = any(all(precedes(d, sc) for d in trans) and under_memo(sc) for sc in setc)
     run.check(ok, 'C03.R2', '_set_cell_to_context/set_cell', 'not-registered', 'the translated code is not registered with the context '
               'after the formula was translated', fact='context.set_cell(cell, code) after the descent', loc=loc_of(fi.module.path, fn))
+    # every cell that has no translation yet gets one: no normal exit of the "not translated yet" region skips set_cell (a cell
+    # that is silently left without a member can only be referenced by a literal, which overrides and the slice do not see)
+    from ..paths import normal_exits_pass
+    regions = [n for n in ast.walk(fn) if isinstance(n, ast.If) and 'get_cell' in ast.unparse(n.test) and
+               any(sc is x for sc in setc for x in ast.walk(n))]
+
+    def is_set(st_):
+        return any(isinstance(x, ast.Call) and isinstance(x.func, ast.Attribute) and x.func.attr == 'set_cell' for x in ast.walk(st_))
+    for reg in regions:
+        # the branch in which the cell has no translation
+        flat = flat_conditions([(reg.test, True)])
+        branch = reg.body if any('get_cell' in ast.unparse(t) and pol is False for t, pol in flat) else reg.orelse
+        run.check(normal_exits_pass(branch, is_set), 'C03.R2', '_set_cell_to_context/every-cell-registered', 'cell-left-unregistered',
+                  'a path through the "cell has no translation yet" branch ends without context.set_cell: such a cell gets no '
+                  'member in the generated class', fact='every normal exit passes set_cell', loc=loc_of(fi.module.path, reg))
+    # CellTranslator.translate hands out what the context minted, nothing else
+    tr_fi = src.func('CellTranslator.translate')
+    for r_ in [n for n in ast.walk(tr_fi.node) if isinstance(n, ast.Return) and n.value is not None]:
+        v_ = r_.value
+        okr = isinstance(v_, ast.Call) and isinstance(v_.func, ast.Attribute) and v_.func.attr == 'get_cell'
+        if isinstance(v_, ast.Name):
+            ds = [a_.value for a_ in ast.walk(tr_fi.node) if isinstance(a_, ast.Assign) and any(isinstance(t_, ast.Name) and t_.id == v_.id
+                                                                                                for t_ in a_.targets)]
+            okr = bool(ds) and all(isinstance(d_, ast.Call) and isinstance(d_.func, ast.Attribute) and d_.func.attr == 'get_cell' for d_ in ds)
+        run.check(okr, 'C03.R2', 'CellTranslator.translate/returns-context-reference', 'reference-not-from-context',
+                  f'CellTranslator.translate returns `{ast.unparse(v_)[:70]}`: a reference (or a literal standing for the cell) that the '
+                  f'context did not mint bypasses the member of the cell -- overrides and the entry slice do not reach it',
+                  fact='return context.get_cell(cell)', loc=loc_of(tr_fi.module.path, r_))
 
 
 def _ancestors(node, parents):
